@@ -561,6 +561,93 @@ def check_actor_slots(rep, ctx, tier):
     rep.bounds["state actor"] = "%d slots; sequences of 2 and 3 messages from an arbitrary actor state" % len(slots)
 
 
+def check_interception_unit(rep, ctx):
+    """'each endpoint is intercepted exactly when its mode is not disabled': the state section passes mode != disabled to
+    update_<endpoint>_redirect_policy; this unit decides what those three functions and BpfObject::update_redirect_policy do with it:
+    the policy entry of THAT endpoint's address is inserted (value: the proxy's listener) when the flag is set and removed when it is not."""
+    def ip_u32(dotted):
+        a = [int(x) for x in dotted.split(".")]
+        return a[0] | (a[1] << 8) | (a[2] << 16) | (a[3] << 24)          # network byte order read as a little-endian u32
+    consts = {}
+    for name in ("WIRE_SERVER_IP", "WIRE_SERVER_PORT", "GA_PLUGIN_IP", "GA_PLUGIN_PORT", "IMDS_IP", "IMDS_PORT"):
+        e2 = ctx.engine(); e2._reset([])
+        v = e2.eval_const("common::constants::" + name)
+        consts[name] = (v.e.as_string() if isinstance(v, StrV) else (z3.simplify(v.e).as_long() if isinstance(v, Scalar) else None))
+    for fn, ipn, portn in (("update_wire_server_redirect_policy", "WIRE_SERVER_IP", "WIRE_SERVER_PORT"), ("update_imds_redirect_policy", "IMDS_IP", "IMDS_PORT"),
+                           ("update_hostga_redirect_policy", "GA_PLUGIN_IP", "GA_PLUGIN_PORT")):
+        try:
+            w = ctx.one("redirector::linux::" + fn) + "::{closure#0}"
+        except Inconclusive as ex:
+            rep.add(Query("%s located" % fn, "inconclusive", str(ex), 0, "mirsym", key="C09.intercept:" + fn))
+            continue
+        eng = ctx.engine(loop_bound=1)
+        eng.auto_inline = ctx.new_function_auto()
+        n = 0
+        for i, r in enumerate(eng.explore(w)):
+            if r.status != "return":
+                continue
+            env = origin(r.args[0])
+            up = [e for e in r.events if e.kind == "call" and e.callee.endswith("update_redirect_policy")]
+            bo = [e for e in r.events if e.kind == "await" and e.callee.endswith("get_bpf_object")]
+            lp = [e for e in r.events if e.kind == "await" and e.callee.endswith("get_local_port")]
+            avail = bool(bo) and bool(lp) and implied(r, z3.And(bo[0].ret.discr() == 0, bo[0].ret.child(("v", "Ok", 0)).discr() == 1, lp[0].ret.discr() == 0))
+            if not avail:
+                if up:
+                    rep.add(Query("%s path %d: no policy update without the loaded object and the listener port" % (fn, i), "violated", "", 0, "mirsym", key="C09.intercept:" + fn, reproduced=None))
+                continue
+            n += 1
+            ok = len(up) == 1
+            detail = "update_redirect_policy calls %d" % len(up)
+            if ok:
+                a = up[0].rargs
+                ipv = z3.simplify(a[1].e).as_long() if isinstance(a[1], Scalar) and z3.is_bv_value(z3.simplify(a[1].e)) else None
+                pv = z3.simplify(a[2].e).as_long() if isinstance(a[2], Scalar) and z3.is_bv_value(z3.simplify(a[2].e)) else None
+                ok = ipv == ip_u32(consts[ipn]) and pv == consts[portn] and derives(a[3], lp[0].ret, r.events) and same_origin(a[4], env.child(("f", 0))) and \
+                    (derives(a[0], bo[0].ret, r.events) or any(e.kind == "call" and e.callee.endswith("Mutex::lock") and derives(a[0], e.ret, r.events) and derives(e.rargs[0], bo[0].ret, r.events) for e in r.events))
+                detail = "address %s:%s (expected %s:%s = %s), flag is the argument %s" % (ipv, pv, consts[ipn], consts[portn], ip_u32(consts[ipn]), same_origin(a[4], env.child(("f", 0))))
+            rep.add(Query("%s path %d: one policy update for %s:%s with the listener's port and the caller's flag, on the loaded object" % (fn, i, consts[ipn], consts[portn]), "holds" if ok else "violated", detail, 0, "mirsym",
+                          key="C09.intercept:" + fn, reproduced=None))
+        rep.functions_encoded.append(w)
+        rep.add(Query("witness: %s has an updating path" % fn, "witness-hit" if n else "witness-missed", "%d" % n, 0, "mirsym"))
+    # the map operation
+    try:
+        w = ctx.method("BpfObject", "update_redirect_policy")
+    except Inconclusive as ex:
+        rep.add(Query("BpfObject::update_redirect_policy located", "inconclusive", str(ex), 0, "mirsym", key="C09.intercept.map"))
+        return
+    eng = ctx.engine(loop_bound=1)
+    n_ins = n_rem = 0
+    for i, r in enumerate(eng.explore(w)):
+        if r.status != "return":
+            continue
+        flag = origin(r.args[4]).scalar("bool")
+        ins = [e for e in r.events if e.kind == "call" and re.search(r"HashMap::insert$", e.callee)]
+        rem = [e for e in r.events if e.kind == "call" and re.search(r"HashMap::remove$", e.callee)]
+        fi = [e for e in r.events if e.kind == "call" and e.callee.endswith("from_ipv4")]
+        ta = [e for e in r.events if e.kind == "call" and e.callee.endswith("to_array")]
+        mm = [e for e in r.events if e.kind == "call" and e.callee.endswith("map_mut")]
+        if not ins and not rem:
+            continue               # the map is not there / cannot be opened: logged
+        def key_of(arr):
+            t = [e for e in ta if e.ret is origin(arr)]
+            f = [e for e in fi if t and e.ret is origin(t[0].rargs[0])]
+            return f[0] if f else None
+        if ins:
+            n_ins += 1
+            k, v = key_of(ins[0].rargs[1]), key_of(ins[0].rargs[2])
+            sip = [e for e in r.events if e.kind == "call" and e.callee.endswith("string_to_ip")]
+            ok = len(ins) == 1 and not rem and implied(r, flag) and k is not None and v is not None and same_origin(k.rargs[0], r.args[1]) and same_origin(k.rargs[1], r.args[2]) and \
+                same_origin(v.rargs[1], r.args[3]) and bool(sip) and v.rargs[0] is sip[0].ret and isinstance(origin(mm[0].rargs[1]), StrV) and origin(mm[0].rargs[1]).e.as_string() == "policy_map"
+            rep.add(Query("update_redirect_policy path %d: flag set => policy_map[(dest ip, dest port)] := (proxy ip, listener port)" % i, "holds" if ok else "violated", "", 0, "mirsym+z3", key="C09.intercept.map", reproduced=None))
+        else:
+            n_rem += 1
+            k = key_of(rem[0].rargs[1])
+            ok = len(rem) == 1 and implied(r, z3.Not(flag)) and k is not None and same_origin(k.rargs[0], r.args[1]) and same_origin(k.rargs[1], r.args[2])
+            rep.add(Query("update_redirect_policy path %d: flag clear => policy_map entry of (dest ip, dest port) removed" % i, "holds" if ok else "violated", "", 0, "mirsym+z3", key="C09.intercept.map", reproduced=None))
+    rep.functions_encoded.append(w)
+    rep.add(Query("witness: update_redirect_policy has inserting and removing paths", "witness-hit" if n_ins and n_rem else "witness-missed", "%d/%d" % (n_ins, n_rem), 0, "mirsym"))
+
+
 def check(rep, tier, seed):
     ctx = Ctx("agent")
     rep.extra["mir_dump"] = {"cache_hit": ctx.dump.cache_hit, "tree_hash": ctx.dump.hash, "seconds": round(ctx.dump.seconds, 1)}
@@ -573,6 +660,7 @@ def check(rep, tier, seed):
     check_state_string(rep, ctx)
     check_document_validity(rep, ctx)
     check_actor_slots(rep, ctx, tier)
+    check_interception_unit(rep, ctx)
     rep.assumptions += ["the host's rule id identifies the rule content (rules are re-read only when the id changes)", "actor round-trips succeed in the convergence claim (a failed internal send is logged and retried by a later change)",
                         "Future::poll returns Ready"]
     rep.outside_claim += ["timing of polls", "rule items whose mode is none of enforce/audit/disabled (the state string calls them Disabled while get_*_mode returns the raw text)", "redirector map writes (C06)"]
